@@ -173,3 +173,33 @@ Proof.
     rewrite <- Q. apply b2s_monotone; try assumption.
     exact (val_ok _ _ (s2b_val s' now' (toQ now') Ty' (val_refl _ Hn))).
 Qed.
+
+(* ---- several pending tasks: the seconds under which they are filed keep the order of their due beats ---- *)
+Lemma pending_order h s p1 p2 : WF s -> 0 < toQ (tempo s) -> Forall op_ok h ->
+  p_secs p1 = py_beats2secs s (p_beats p1) -> p_secs p2 = py_beats2secs s (p_beats p2) ->
+  ok (p_beats p1) -> ok (p_beats p2) -> toQ (p_beats p1) <= toQ (p_beats p2) ->
+  exists s' p1' p2', run_pend s h p1 = Some (s', p1') /\ run_pend s h p2 = Some (s', p2') /\
+    p_beats p1' = p_beats p1 /\ p_beats p2' = p_beats p2 /\ toQ (p_secs p1') <= toQ (p_secs p2').
+Proof.
+  intros W Ht F H1 H2 K1 K2 L.
+  destruct (run_pend_inv h s p1 W Ht F H1) as (s1 & q1 & R1 & E1 & W1 & T1 & B1 & S1).
+  destruct (run_pend_inv h s p2 W Ht F H2) as (s2 & q2 & R2 & E2 & W2 & T2 & B2 & S2).
+  assert (s2 = s1) by congruence. subst s2.
+  exists s1, q1, q2. split; [exact R1|]. split; [exact R2|]. split; [exact B1|]. split; [exact B2|].
+  rewrite S1, S2. destruct W1 as (Ty & TI & _). apply b2s_monotone; assumption.
+Qed.
+
+(* no change between play and wake-up: needs neither the meter invariant nor a positive tempo
+   (etempo may have made it negative) *)
+Lemma play_wakes_any_tempo s now a : Typed s -> TInv s ->
+  ok (py_next_time_on_grid s now (fst (as_quant a)) (snd (as_quant a))) ->
+  run_pend s [] (sched_abs_nrt s (play_beat s now a)) = Some (s, sched_abs_nrt s (play_beat s now a)) /\
+  p_beats (sched_abs_nrt s (play_beat s now a)) = py_next_time_on_grid s now (fst (as_quant a)) (snd (as_quant a)) /\
+  p_secs (sched_abs_nrt s (play_beat s now a)) = py_beats2secs s (py_next_time_on_grid s now (fst (as_quant a)) (snd (as_quant a))) /\
+  val (wake_beat_of s (sched_abs_nrt s (play_beat s now a)))
+      (toQ (py_next_time_on_grid s now (fst (as_quant a)) (snd (as_quant a)))).
+Proof.
+  intros H HT Hk. split; [reflexivity|]. split; [reflexivity|]. split; [reflexivity|].
+  unfold wake_beat_of, sched_abs_nrt, play_beat, py_play. cbn [p_secs]. cbv zeta.
+  apply secs_of_beats_inv; assumption.
+Qed.
